@@ -860,13 +860,7 @@ func o3(w *World, r *Report) {
 	}
 	ae := needFn(r, "O-3", w, fref{"node", "RigoApp", "EndBlock"})
 	if ae != nil {
-		n := 0
-		for _, c := range w.callsTo(ae, fref{pkgStake, "StakeCtrler", "EndBlock"}) {
-			_, a := callRecvArgs(c.Common())
-			if len(a) == 1 && w.Canon(a[0]) == "recv.nextBlockCtx" {
-				n++
-			}
-		}
+		n := w.endBlockCalls()["recv.stakeCtrler"]
 		r.Check(n == 1, "O-3", "RigoApp.EndBlock:stake-endblock-once", "the stake controller's EndBlock runs exactly once per block", "the stake controller's EndBlock does not run exactly once per block", fnSite(w, ae))
 	}
 }
